@@ -39,6 +39,9 @@ def payload(kind, t):
     base = np.arange(6.0).reshape(2, 3) + 10.0 * h + h * h
     if kind == "grid":
         return base
+    if kind in ("grid_foreign", "grid_foreign_rate"):
+        # a quantity in a compatible foreign unit (x1000): must arrive converted whether or not it was spilled in between
+        return fm.UNITS.Quantity(base * 1000.0, "mm" if kind == "grid_foreign" else "um/h")
     if kind == "masked_sometimes":
         return np.ma.array(base, mask=MASK if int(h) % 2 else np.zeros_like(MASK), fill_value=-1.0)
     return np.ma.array(base, mask=MASK)
@@ -56,7 +59,7 @@ class Prod(fm.TimeComponent):
     def _initialize(self):
         if self.pk == "scalar":
             info = fm.Info(time=self.time, grid=fm.NoGrid(), units=self.units)
-        elif self.pk == "grid":
+        elif self.pk in ("grid", "grid_foreign", "grid_foreign_rate"):
             info = fm.Info(time=self.time, grid=GRID, units=self.units)
         elif self.pk == "masked_sometimes":
             info = fm.Info(time=self.time, grid=GRID, units=self.units, mask=fm.Mask.FLEX)
@@ -264,6 +267,7 @@ def run(tier, seed, agg):
     cases += [dict(kind=k, payload=p, steps=list(s), end=7, nmax=2 if q else 4, via="slot") for k in KINDS for p in PAYLOADS for s in ((1, 1), (1, 2), (3, 2))]
     cases += [dict(kind=k, payload=p, steps=list(s), end=8, nmax=3 if q else 5, via="composition", order=o) for k in DELAYED for p in PAYLOADS for s in ((1, 1), (1, 2), (2, 1), (1, 3), (3, 2)) for o in ("PC", "CP")]
     cases += [dict(kind=k, payload="grid", steps=list(s), end=7, nmax=3, via="composition", order="CP") for k in KINDS for s in ((1, 1), (1, 2), (2, 3))]
+    cases += [dict(kind=k, payload="grid_foreign_rate" if k in ("Sum", "SumLin") else "grid_foreign", steps=list(s), end=7, nmax=3, via="composition") for k in KINDS for s in ((1, 1), (1, 2), (2, 1), (1, 3))]
     cases += [dict(kind=k, payload="masked_sometimes", steps=list(s), end=7, nmax=4, via="composition") for k in ("direct", "Next", "Previous", "Linear", "Step", "Avg") for s in ((1, 1), (1, 2), (2, 1), (1, 3))]
     # a slow producer under a fast consumer (several pulls inside one publication interval)
     cases += [dict(kind=k, payload=p, steps=list(s), end=14, nmax=3, via="composition") for k in ("direct", "Linear", "Next", "Avg") for p in ("scalar", "grid") for s in ((6, 1), (5, 2), (4, 1))]
